@@ -10,9 +10,10 @@ from harness.layer_conn import family
 def corpus(ctx):
     rng = ctx.rng('coding')
     fam = family()
+    pat = gen_conn.pattern_family()
     if ctx.quick:
-        return rng.sample(fam, 28) + [gen_conn.random_sdesc(rng) for _ in range(28)]
-    return rng.sample(fam, 500) + [gen_conn.random_sdesc(rng) for _ in range(500)]
+        return rng.sample(fam, 24) + [gen_conn.random_sdesc(rng) for _ in range(24)] + rng.sample(pat, 12)
+    return rng.sample(fam, 500) + [gen_conn.random_sdesc(rng) for _ in range(500)] + pat
 
 
 def drive_one(item):
